@@ -38,6 +38,10 @@ const (
 
 func c05Schema(kind int, m int32) proxyv1alpha1.FlowControlSchema {
 	s := proxyv1alpha1.FlowControlSchema{Name: "fc"}
+	// the strategy label is part of every (re)configuration: unset and "local" mean the same local limiting
+	if nondetBool("strategyLocal") {
+		s.Strategy = proxyv1alpha1.LocalLimit
+	}
 	switch kind {
 	case c05Exempt:
 		s.Exempt = &proxyv1alpha1.ExemptFlowControlSchema{}
